@@ -363,6 +363,34 @@ def rule_s6(ctx, F):
         ctx.gate("S6", fn, acc, [("a child is selected by field only if it is not an extra", "ts_subtree_extra(ts_node__subtree(child))", False)], accept_desc="returning the field's child")
 
 
+def rule_s7(ctx, F):
+    """S7: one notion of "named node" — the S-expression printer shows a node exactly when the node
+    API counts it as a named child: aliased ⇒ the alias is named, otherwise visible and named."""
+    fn = ctx.need_fn(F, "ts_subtree__write_to_string", "S7")
+    if fn:
+        d = [x for i in fn.ids_named("is_visible") for x in fn.defs(i) if x is not None and x.get("k") != "uninit"]
+        pat = "include_all || ts_subtree_missing(node) || (frame->alias_symbol ? frame->alias_is_named : ts_subtree_visible(node) && ts_subtree_named(node))"
+        if not d:
+            d = [strip(e.get("init")) for pt, e in fn.points() if e.get("k") == "decl" and (e.get("t") or "") in ("_Bool", "bool") and e.get("init") is not None and "include_all" in show(e["init"])]
+        if d and M(fn).match(pat, d[0]):
+            ctx.ok("S7", "write_to_string:prints-named-nodes", "a node is printed iff include_all, MISSING, or (aliased ? alias named : visible and named)")
+        else:
+            ctx.bad("S7", "write_to_string:prints-named-nodes", "the printer's visibility test is no longer `%s` (now `%s`): ts_node_string and the named-child API disagree about which nodes exist" % (pat, show(d[0])[:120] if d else "?"))
+    fn = ctx.need_fn(F, "ts_node__is_relevant", "S7")
+    if fn:
+        rets = [(pt, strip(e["e"])) for pt, e in fn.points() if e.get("k") == "ret"]
+        m = M(fn)
+        table = [("ts_subtree_visible(tree) || ts_node__alias(&self)", [("with anonymous nodes included: visible or aliased", "include_anonymous", True)]),
+                 ("ts_language_symbol_metadata(self.tree->language, alias).named", [("named only: an aliased node counts iff its alias is named", "alias", True), ("…in the named-only mode", "include_anonymous", False)]),
+                 ("ts_subtree_visible(tree) && ts_subtree_named(tree)", [("named only: an un-aliased node counts iff visible and named", "alias", False), ("…in the named-only mode", "include_anonymous", False)])]
+        for pat, gates in table:
+            pts = [pt for pt, r in rets if m.match(pat, r)]
+            if not pts:
+                ctx.bad("S7", "ts_node__is_relevant:returns:%s" % pat[:40], "ts_node__is_relevant no longer returns `%s`" % pat)
+                continue
+            ctx.gate("S7", fn, pts, gates, accept_desc="returning `%s`" % pat[:40])
+
+
 def rule_s4(ctx, F):
     table = [
         ("ts_node__field_name_from_language", "field_map", "structural_child_index", lambda e: e.get("k") == "ret" and strip(e["e"]).get("k") != "null" and not (strip(e["e"]).get("k") == "int")),
@@ -392,6 +420,7 @@ def run(ctx):
         rule_s4(ctx, F)
         rule_s5(ctx, F)
         rule_s6(ctx, F)
+        rule_s7(ctx, F)
     return ctx.finish(
         "Sibling-agreement (CFG isomorphism under substitution), field-coverage and index-width rules over node.c / tree_cursor.c: byte- and point-range "
         "descendant search are the same algorithm; child/named-child APIs share one implementation; child iterators read aliases and advance the structural "
